@@ -94,6 +94,33 @@ def confirm(outdir, prop):
             drop_worktree(wt)
 
 
+def reconfirm(seed):
+    """re-validate a stored seed against /repo's CURRENT HEAD (fix commits may have landed since)"""
+    d = os.path.join(SEEDED, seed)
+    meta = json.load(open(os.path.join(d, "meta.json")))
+    wt = worktree(f"/tmp/sc_{seed}")
+    try:
+        rc0, _ = run_demo(wt, os.path.join(d, "demo.py"))
+        rc, out = sh(["git", "apply", "--check", os.path.join(d, "patch.diff")], cwd=wt)
+        if rc != 0:
+            status = {"applies": False}
+        else:
+            sh(["git", "apply", os.path.join(d, "patch.diff")], cwd=wt)
+            rc1, out1 = run_demo(wt, os.path.join(d, "demo.py"))
+            rct, outt = sh([PY, "-m", "pytest", "-q", "-p", "no:cacheprovider", "--timeout=900", "-q", "-x", "--deselect",
+                            "tests/test_create_pyi.py::test_create_stub_using_script"], cwd=wt,
+                           env=dict(os.environ, PYTHONPATH=wt), timeout=1800)
+            tail = outt.strip().splitlines()[-1] if outt.strip() else ""
+            status = {"applies": True, "demo_exit_clean": rc0, "demo_exit_patched": rc1, "tests": tail,
+                      "valid": rc0 == 0 and rc1 == 1 and rct == 0}
+        status["head"] = sh(["git", "-C", "/repo", "rev-parse", "--short", "HEAD"])[1].strip()
+        meta["reconfirmed"] = status
+        json.dump(meta, open(os.path.join(d, "meta.json"), "w"), indent=1)
+        print(seed, status)
+    finally:
+        drop_worktree(wt)
+
+
 def own_checks(verif):
     return sorted("C" + re.match(r"c(\d+)\.py", f).group(1) for f in os.listdir(os.path.join(verif, "harness/props"))
                   if re.match(r"c\d+\.py", f))
@@ -170,6 +197,7 @@ if __name__ == "__main__":
     b.add_argument("--tier", default="quick"); b.add_argument("--verif", default=HERE)
     b.add_argument("--via-repo", action="store_true"); b.add_argument("--seedenv", default="0")
     sub.add_parser("table")
+    r = sub.add_parser("reconfirm"); r.add_argument("seed")
     args = ap.parse_args()
     if args.cmd == "confirm":
         confirm(args.outdir, args.prop)
@@ -180,3 +208,5 @@ if __name__ == "__main__":
                 run(s, args.checks, args.tier, args.verif, args.via_repo, args.seedenv)
     elif args.cmd == "table":
         table()
+    elif args.cmd == "reconfirm":
+        reconfirm(args.seed)
